@@ -193,7 +193,7 @@ public:
         auto dir = QDir(baseDir());
         auto maxIndex = 0;
 
-        const auto entries = dir.entryList(QDir::Files);
+        const auto entries = dir.entryList(QDir::Files | QDir::Hidden);
         for (const QString &entry : entries) {
             auto match = re.match(entry);
             if (match.hasMatch()) {
@@ -277,7 +277,7 @@ public:
         };
         auto rotated = QList<RotatedFile>();
 
-        const auto entries = dir.entryList(QDir::Files, QDir::Name);
+        const auto entries = dir.entryList(QDir::Files | QDir::Hidden, QDir::Name);
         for (const QString &entry : entries) {
             const auto match = re.match(entry);
             if (match.hasMatch()) {
